@@ -131,6 +131,25 @@ func Run(r *core.Run) {
 			cases = append(cases, c)
 		}
 	}
+	// a deviator that shares a polynomial of a higher degree than the threshold, consistently (one more
+	// committed coefficient, every share moved accordingly): covered by the share check / the opening
+	for _, sd := range []struct {
+		scn string
+		dev int
+	}{{"eddsa-keygen", 1}, {"ecdsa-keygen", 1}, {"eddsa-resharing", 0}, {"ecdsa-resharing", 0}} {
+		for _, c := range fault.EnumerateCraftedCases(sd.scn, sd.dev) {
+			if c.Dev.Op == "recommit:raise-degree" {
+				cases = append(cases, c)
+			}
+		}
+	}
+	if !full {
+		for _, c := range fault.EnumerateCraftedCases("ecdsa-keygen-3", 1) {
+			if c.Dev.Op == "recommit:raise-degree" {
+				cases = append(cases, c)
+			}
+		}
+	}
 	// parties configured with a wrong secret input, or with Paillier / ring-Pedersen parameters copied from another party
 	cases = append(cases, fault.ConfigCases("eddsa-signing", []int{0, 1, 2}, nil)...)
 	cases = append(cases, fault.ConfigCases("eddsa-resharing", []int{0, 1}, nil)...)
